@@ -120,3 +120,73 @@ theorem gr_divide_and_round_q_last_inplace_eq (r : RNSTool) (p : RnsPoly)
     show Except.ok _ = Except.ok _
     congr 1
     simp [List.range_eq_range', List.map_map, Function.comp_def]
+
+/-! ### reading the flat result, and the end-to-end statement -/
+
+theorem gr_flat_getD (n : Nat) : ∀ (cs : List (List Nat)) (i j : Nat), (∀ c ∈ cs, c.length = n) → i < cs.length → j < n →
+    cs.flatten.getD (i * n + j) 0 = (cs.getD i []).getD j 0 := by
+  intro cs
+  induction cs with
+  | nil => intro i j _ hi; simp at hi
+  | cons c cs ih =>
+    intro i j h hi hj
+    have hc := h c (by simp)
+    rw [List.flatten_cons]
+    cases i with
+    | zero => rw [Nat.zero_mul, Nat.zero_add, gr_getD_append_left _ _ _ _ (by omega)]; rfl
+    | succ i =>
+      rw [gr_getD_append_right _ _ _ _ (by rw [hc, Nat.succ_mul]; omega), List.getD_cons_succ]
+      have : (i + 1) * n + j - c.length = i * n + j := by rw [hc, Nat.succ_mul]; omega
+      rw [this]
+      exact ih i j (fun x hx => h x (by simp [hx])) (by simpa using hi) hj
+
+theorem gr_flatP_getD {r : RNSTool} {p : RnsPoly} (h : gr_Shape r p) {i j : Nat} (hi : i < r.baseQ.size) (hj : j < r.n) :
+    (flatP p).getD (i * r.n + j) 0 = (p.getD i #[]).getD j 0 := by
+  obtain ⟨hcs, hn⟩ := gr_shape_cs h
+  unfold flatP
+  rw [gr_flat_getD r.n _ i j hn (by omega) hj, gr_cs_getD, gr_arr_getD]
+
+/-- the model's result has the shape of its input -/
+theorem gr_dar_shape {r : RNSTool} {p out : RnsPoly} (hq : ∀ i, i < r.baseQ.size → (r.baseQ.q i).WF) (hs : 1 ≤ r.baseQ.size)
+    (hp : gr_Shape r p) (h : r.divideAndRoundQLast p = .ok out) : gr_Shape r out := by
+  rw [gr_dar_model r p hq hs] at h
+  cases hm : (p.getD (r.baseQ.size - 1) #[]).toList.mapM (fun x => addMod x ((r.baseQ.q (r.baseQ.size - 1)).value / 2) (r.baseQ.q (r.baseQ.size - 1))) with
+  | error e => rw [hm] at h; cases h
+  | ok lastc =>
+    rw [hm, gr_ok_bind] at h
+    cases h
+    have hll : lastc.length = r.n := by rw [gr_mapM_length _ _ _ hm, Array.length_toList, hp.2 _ (by omega)]
+    refine ⟨by simp; omega, ?_⟩
+    intro i hi
+    by_cases his : i < r.baseQ.size - 1
+    · rw [getD_push_rangeMap _ _ _ _ his]
+      unfold gr_darComp
+      have := hp.2 i hi
+      simp only [Array.getD_eq_getD_getElem?] at this
+      simp [this]
+    · have : i = r.baseQ.size - 1 := by omega
+      subst this
+      simp [Array.getD_eq_getD_getElem?, hll]
+
+/-- **END TO END (C10, rounding division)**: the function generated from the Rust source of `RNSTool::divide_and_round_q_last_inplace`,
+    run on the flat buffer of a polynomial whose coefficient `j` holds the canonical residues of an integer `X j`, returns — at position
+    `i * n + j`, for every remaining prime `q_i` — the residue of the NEAREST INTEGER to `X j / q_last` (ties up). -/
+theorem gr_divide_and_round_q_last_inplace_rounds (r : RNSTool) (p : RnsPoly) (X : Nat → Nat)
+    (hq : ∀ i, i < r.baseQ.size → (r.baseQ.q i).WF) (hs : 2 ≤ r.baseQ.size)
+    (hinv : ∀ i, i < r.baseQ.size - 1 → WFOp (r.baseQ.q i) (r.invQLastModQ.getD i default) ∧
+        ((r.invQLastModQ.getD i default).operand * (r.baseQ.q (r.baseQ.size - 1)).value) % (r.baseQ.q i).value = 1)
+    (hinvs : r.baseQ.size - 1 ≤ r.invQLastModQ.size)
+    (hsn : r.baseQ.size * r.n < 2^64) (hs64 : r.baseQ.size < 2^64) (hp : gr_Shape r p)
+    (hX : ∀ i j, i < r.baseQ.size → j < r.n → (p.getD i #[]).getD j 0 = X j % (r.baseQ.q i).value) :
+    ∃ out, GenR.divide_and_round_q_last_inplace (flatP p) r.baseQ.size r.baseQ.base.toList r.n r.invQLastModQ.toList = .ok out ∧
+      ∀ i j, i < r.baseQ.size - 1 → j < r.n →
+        out.getD (i * r.n + j) 0 = ((X j + (r.baseQ.q (r.baseQ.size - 1)).value / 2) / (r.baseQ.q (r.baseQ.size - 1)).value) % (r.baseQ.q i).value := by
+  have hc : ∀ i j, i < r.baseQ.size → j < r.n → (p.getD i #[]).getD j 0 < (r.baseQ.q i).value := by
+    intro i j hi hj; rw [hX i j hi hj]; exact Nat.mod_lt _ (by have := (hq i hi).two_le; omega)
+  obtain ⟨o, ho, hv⟩ := divideAndRoundQLast_spec hq hs hinv hp.1 hp.2 hc
+  have hsh := gr_dar_shape hq (by omega) hp ho
+  refine ⟨flatP o, ?_, ?_⟩
+  · rw [gr_divide_and_round_q_last_inplace_eq r p (by omega) hq hinvs hsn hs64 hp, ho]; rfl
+  · intro i j hi hj
+    rw [gr_flatP_getD hsh (by omega) hj, hv i j hi hj, hX _ j (by omega) hj, hX i j (by omega) hj]
+    exact divRoundLast_scalar (hq _ (by omega)).two_le (hq i (by omega)).two_le (hinv i hi).2
